@@ -87,12 +87,12 @@ def design(prop, tier):
     if prop in DATA_INVS:
         a6 = '{"c", "d"}' if tier == "thorough" else '{"c"}'
         consts = f'CONSTANTS PNames = {{"p", "q"}} A4 = {{"a", "b"}} A6 = {a6} MaxRuns = 3 MaxLoads = 2 '
-        r = run_tlc("MCAgentRun", f"SPECIFICATION SpecData\n{consts} FixEmptyTerm = TRUE SkipNoReject = FALSE\nINVARIANTS {DATA_INVS[prop]}\nCHECK_DEADLOCK FALSE\n",
+        r = run_tlc("MCAgentRun", f"SPECIFICATION SpecData\n{consts} FixEmptyTerm = TRUE SkipNoReject = FALSE RejectBareTerm = TRUE\nINVARIANTS {DATA_INVS[prop]}\nCHECK_DEADLOCK FALSE\n",
                     f"{prop}-design", workers=12 if tier == "thorough" else 6, timeout=1500)
         res.append(r)
         if prop == "C01":
             # the model must be able to express the defect that was repaired (name-only term for an empty family)
-            n = run_tlc("MCAgentRun", f"SPECIFICATION SpecData\n{consts} FixEmptyTerm = FALSE SkipNoReject = FALSE\nINVARIANTS InvReadBack\nCHECK_DEADLOCK FALSE\n",
+            n = run_tlc("MCAgentRun", f"SPECIFICATION SpecData\n{consts} FixEmptyTerm = FALSE SkipNoReject = FALSE RejectBareTerm = TRUE\nINVARIANTS InvReadBack\nCHECK_DEADLOCK FALSE\n",
                         f"{prop}-design-asfound", workers=2)
             if n["violated"] != "InvReadBack":
                 raise ToolError(f"AgentRun.tla no longer reproduces the repaired C01 defect (see {n['out']})")
@@ -103,20 +103,27 @@ def design(prop, tier):
             # safety of the committed configuration and convergence as a liveness property under fairness
             b = 2 if tier == "thorough" else 1
             y = run_tlc("System", f'SPECIFICATION SSpec\nCONSTANTS PNames = {{"p", "q"}} A4 = {{"a", "b"}} A6 = {{"c"}} FixEmptyTerm = TRUE '
-                        f'SkipNoReject = FALSE Period = 45 MaxChanges = {b} MaxFaults = {b}\n'
+                        f'SkipNoReject = FALSE RejectBareTerm = TRUE Period = 45 MaxChanges = {b} MaxFaults = {b}\n'
                         'INVARIANTS NeverFailOpen AlwaysReadable InstalledIsLastApplied DelaysOk\nPROPERTIES OnlyCommitChanges EventuallyConverges\n'
                         'CHECK_DEADLOCK FALSE\n', f"{prop}-system", workers=8, timeout=1500)
             res.append(y)
         if prop == "C02":
             # ... and the C02 defect: an installed policy without trailing reject was skipped by the reader and merged into
-            n = run_tlc("MCAgentRun", f"SPECIFICATION SpecData\n{consts} FixEmptyTerm = TRUE SkipNoReject = TRUE\nINVARIANTS InvUpdateSafe\nCHECK_DEADLOCK FALSE\n",
+            n = run_tlc("MCAgentRun", f"SPECIFICATION SpecData\n{consts} FixEmptyTerm = TRUE SkipNoReject = TRUE RejectBareTerm = TRUE\nINVARIANTS InvUpdateSafe\nCHECK_DEADLOCK FALSE\n",
                         f"{prop}-design-asfound", workers=2)
             if n["violated"] != "InvUpdateSafe":
                 raise ToolError(f"AgentRun.tla no longer reproduces the repaired C02 defect (see {n['out']})")
             n["violated"] = None; n["name"] += " (expected InvUpdateSafe violation: seen)"
             res.append(n)
+            # ... and the second C02 defect: a term matching on the family alone was read as an empty family and left in place
+            n = run_tlc("MCAgentRun", f"SPECIFICATION SpecData\n{consts} FixEmptyTerm = TRUE SkipNoReject = FALSE RejectBareTerm = FALSE\nINVARIANTS InvUpdateSafe\nCHECK_DEADLOCK FALSE\n",
+                        f"{prop}-design-asfound-bare", workers=2)
+            if n["violated"] != "InvUpdateSafe":
+                raise ToolError(f"AgentRun.tla no longer reproduces the repaired C02 defect 'term without route-filter' (see {n['out']})")
+            n["violated"] = None; n["name"] += " (expected InvUpdateSafe violation: seen)"
+            res.append(n)
     if prop == "C04":
-        r = run_tlc("MCAgentRun", 'SPECIFICATION SpecProto\nCONSTANTS PNames = {"p"} A4 = {"a"} A6 = {} FixEmptyTerm = TRUE SkipNoReject = FALSE MaxRuns = 1 '
+        r = run_tlc("MCAgentRun", 'SPECIFICATION SpecProto\nCONSTANTS PNames = {"p"} A4 = {"a"} A6 = {} FixEmptyTerm = TRUE SkipNoReject = FALSE RejectBareTerm = TRUE MaxRuns = 1 '
                     f'MaxLoads = {5 if tier == "thorough" else 3}\nINVARIANTS InvCommitOnlyAfter InvSuccessOnly\nPROPERTY NoCommitAfterFailure\nCHECK_DEADLOCK FALSE\n',
                     f"{prop}-design", workers=2)
         res.append(r)
